@@ -3,14 +3,14 @@
 import itertools
 
 RANK_POOL = ["J", "K", "M", "N"]
-TENSOR_POOL = ["A", "B", "C", "D", "E", "F", "G", "H"]
+TENSOR_POOL = ["A", "B", "C", "D", "E", "F", "G", "H", "P", "Q", "R", "S"]
 
 
 def _idx(ranks):
     return "[" + ", ".join(r.lower() for r in ranks) + "]"
 
 
-def gen_plain_einsum(rng, max_ranks=3, max_terms=2, max_factors=2, take_p=0.25, scalar_p=0.15, rank0_p=0.1,
+def gen_plain_einsum(rng, max_ranks=3, max_terms=2, max_factors=2, take_p=0.25, scalar_p=0.3, rank0_p=0.1,
                      out_only_p=0.0):
     """One Einsum as a dict {decl, expr, out, ranks, shape} (products, sums, take, scalars, rank-0)."""
     nr = rng.randint(1, max_ranks)
@@ -48,8 +48,10 @@ def gen_plain_einsum(rng, max_ranks=3, max_terms=2, max_factors=2, take_p=0.25, 
             shape["take"] += 1
         else:
             if rng.random() < scalar_p:
-                strs.insert(rng.randint(0, len(strs)), rng.choice(["a", "b"]))
-                shape["scalar"] += 1
+                # scalar factors; the same scalar may occur several times in one product and in several terms
+                for _ in range(1 if rng.random() < 0.6 else 2):
+                    strs.insert(rng.randint(0, len(strs)), rng.choice(["a", "b"]))
+                    shape["scalar"] += 1
             terms.append(" * ".join(strs))
     nout = rng.randint(0, nr)
     out = rng.sample(ranks, nout)
